@@ -170,6 +170,14 @@ class TxnType(DataflowTransactionContext):  # pylint: disable=too-few-public-met
                     TYPEENUM_TRANSACTION_TYPES
                 ) - set([compared_type])
 
+            if true_values is not None and false_values is not None:
+                # TypeEnum does not say anything about OnCompletion: when the transaction can be an
+                # application call, it can have any of the application call types.
+                if TealerTransactionType.Appl in true_values:
+                    true_values = true_values | set(APPLICATION_TRANSACTION_TYPES)
+                if TealerTransactionType.Appl in false_values:
+                    false_values = false_values | set(APPLICATION_TRANSACTION_TYPES)
+
             if is_value_matches_key(key, arg1, OnCompletion) and value_3 is not None:
                 compared_on_completion = oncompletion_to_tealer_type(value_3)
                 true_values, false_values = set([compared_on_completion]), set(
